@@ -1336,7 +1336,16 @@ pub fn prove_verify(c: &Circuit<F>, traces: &Traces<F>, packing: TablePacking) -
     let prover = BatchStarkProver::new(config::baby_bear()).with_table_packing(packing);
     let r = catch_unwind(AssertUnwindSafe(|| {
         let proof = prover.prove_all_tables(traces, &prep.cpd).map_err(|e| format!("prove: {e:?}"))?;
-        prover.verify_all_tables::<F>(&proof).map_err(|e| format!("verify: {e:?}"))
+        prover.verify_all_tables::<F>(&proof).map_err(|e| format!("verify: {e:?}"))?;
+        // C18: the verifying data the proof is checked against is the one an independent compilation
+        // (get_airs_and_degrees_with_prep + ProverData::from_airs_and_degrees) produces
+        // (commitment, per-instance preprocessed metadata: a table shorter than the Merkle cap does not enter the commitment)
+        let own = format!("{:?}", prep.cpd.prover_data.common.preprocessed.as_ref().map(|g| (&g.commitment, g.instances.iter().map(|m| m.as_ref().map(|m| (m.matrix_index, m.width, m.degree_bits))).collect::<Vec<_>>())));
+        let carried = format!("{:?}", proof.stark_common.preprocessed.as_ref().map(|g| (&g.commitment, g.instances.iter().map(|m| m.as_ref().map(|m| (m.matrix_index, m.width, m.degree_bits))).collect::<Vec<_>>())));
+        if own != carried {
+            return Err("verifying-data: the preprocessed commitment the proof carries (and is verified against) differs from the independently compiled one".into());
+        }
+        Ok(())
     }));
     match r {
         Ok(x) => x,
@@ -1393,7 +1402,7 @@ pub fn check_c10(prog: &Program, built: &Built, rng: &mut StdRng, packings: &[(u
         let packing = TablePacking::new(pl, al).with_horner_pack_k(k).with_min_trace_height(mh);
         n += 1;
         if let Err(e) = prove_verify(c, &traces, packing) {
-            let kind = if e.contains("PANIC") { "prove-panics" } else if e.starts_with("verify") { "honest-proof-rejected" } else { "cannot-prove-satisfying-input" };
+            let kind = if e.contains("PANIC") { "prove-panics" } else if e.starts_with("verifying-data") { "proof-carries-other-verifying-data-than-compiled" } else if e.starts_with("verify") { "honest-proof-rejected" } else { "cannot-prove-satisfying-input" };
             let short: String = e.chars().take(160).collect();
             let mut signature = sig(kind, prog, Some(built));
             if horner_unchained {
